@@ -14,7 +14,9 @@ with the asyncio clock instead of IOLoop.time(); timedelta.seconds for total_sec
 logged; returned futures not observed; add_future running done futures inline; run_sync not removing
 its timeout / stopping without waiting for the cancellation; add_callback dropping kwargs;
 remove_timeout ignoring due timers - each reported as VIOLATION by the S2C replay; a swapped pair in a
-recorded execution log / a swapped pair of runs of one thread is rejected by the trace specs.
+recorded execution log / a swapped pair of runs of one thread is rejected by the trace specs.  add_callback taking the
+non-thread-safe path whenever ANY loop runs in the calling thread (lost wake-up of an idle target
+loop) is reported through the `stuck` event of the threaded runs (CrossThread.NoLostWakeup).
 """
 import random
 
@@ -215,21 +217,33 @@ def run(ctx):
     # run_sync: every sequence of calls (function kind x duration x timeout) up to the bound
     ctx.mc("loop", "RunSync", "MC_RunSync.cfg", required_actions=["Call"])
     rs = group_by_program(ctx.gen_paths("loop", "Gen_RunSync", "Gen_RunSync.cfg",
-                                        overrides=ctx.pick({}, {"Durations": "{0, 1, 2, 3}", "Timeouts": "{0, 1, 2, 999}"})))
+                                        overrides=ctx.pick({}, {"Durations": "{0, 1, 2, 3}", "Timeouts": "{0, 1, 2, 999}",
+                                                                "SecondKinds": '{"none", "raise", "value", "coro", "cororaise", "gencoro", "future", "swallow", "stop"}'})))
     ctx.note("runsync_programs", len(rs))
     ctx.replay(rs, runsync_replayer, label="s2c-runsync", nontrivial=lambda e, p: len(p) >= 1)
     # code -> spec: random programs (up to 12 own items, all script kinds and API forms) validated by TLC
-    n = ctx.pick(200, 8000)
+    n = ctx.pick(150, 8000)
     traces = framework.pool_map(random_sched_trace, [(i + 1, ctx.seed * 1000003 + i, ctx.pick(40, 60)) for i in range(n)])
     ctx.validate("loop", "Trace_IOLoopSched", "Trace_IOLoopSched.cfg", traces, label="c2s-sched")
-    # code -> spec, real threads: several threads add_callback numbered series while the loop runs
-    m = ctx.pick(40, 1000)
-    ct = framework.pool_map(D.cross_thread_run, [(i + 1, ctx.seed * 7919 + i, 2 + i % 5, ctx.pick(30, 60)) for i in range(m)])
-    lost = [t["id"] for t in ct if t.pop("gave_up")]
-    ctx.note("cross_thread_runs", {"runs": m, "gave_up": len(lost)})
-    ctx.mc("loop", "CrossThread", "MC_CrossThread.cfg", required_actions=["Begin", "Run"])
+    # code -> spec, real threads: plain threads, threads inside their own running asyncio loop (calling from a
+    # coroutine / from a callback of that loop) and threads running their own IOLoop add_callback numbered series
+    # on an otherwise idle target loop; a third of the runs use only loop-running producers
+    m = ctx.pick(30, 1000)
+    pure = [["asyncio_coro"], ["asyncio_cb"], ["ioloop"], ["asyncio_coro", "ioloop", "asyncio_cb"]]
+    jobs = []
+    for i in range(m):
+        job = (i + 1, ctx.seed * 7919 + i, 2 + i % 5, ctx.pick(20, 60))
+        if i % 3 == 0:
+            job += (pure[(i // 3) % len(pure)],)
+        jobs.append(job)
+    ct = framework.pool_map(D.cross_thread_run, jobs)
+    info = {t["id"]: (t.pop("gave_up"), t.pop("stuck"), t["kinds"]) for t in ct}
+    ctx.note("cross_thread_runs", {"runs": m, "gave_up": sum(1 for v in info.values() if v[0]),
+                                   "stuck": sum(1 for v in info.values() if v[1])})
+    ctx.mc("loop", "CrossThread", "MC_CrossThread.cfg", required_actions=["Begin", "Added", "Run", "Sleep", "WakeUp", "Drain"])
     ctx.validate("loop", "Trace_CrossThread", "Trace_CrossThread.cfg", ct, label="c2s-threads",
-                 sig_fn=lambda t, bad, l: {"spec": "CrossThread", "nt": t["cfg"]["nt"]})
+                 sig_fn=lambda t, bad, l: {"spec": "CrossThread", "nt": t["cfg"]["nt"], "event": bad.get("a") if bad else None,
+                                           "producer_kinds": sorted(set(info[t["id"]][2])), "gave_up": info[t["id"]][0]})
     ctx.cov["exhaustive"] = True
     ctx.cov["rule"] = ("programs: every sequence of add_callback/spawn_callback, add_timeout (absolute, timedelta) / call_later / "
                        "call_at, add_future, resolve, remove_timeout, clock advance and single loop iteration up to the Gen "
